@@ -1,5 +1,7 @@
 import ColaVerif.Basic.GInt
 import ColaVerif.Lemmas.ExprSound
+import ColaVerif.Lemmas.ExprHerm
+import Mathlib.Analysis.Complex.Basic
 
 /-!
 # C03 — operator algebra builds the operator of the corresponding matrix expression
@@ -25,6 +27,12 @@ Hypotheses of the main theorem (all named):
   `Product` nodes — for the `Sum`, `Kronecker`, `KronSum`, `BlockDiag`, `Diagonal`, `Dense`,
   `ScalarMul` and `no_dispatch` nodes the condition is proved here outright.
   `C03_clause_needed_herm` shows that without it the result of `c * A` need not satisfy `HermOK`.
+  It is no longer only an assumption: `C03_hermClosed_of_leaves` DERIVES it (and `LeavesGood`)
+  over ℝ and ℂ from C05's annotation soundness under leaf-level hypotheses — operator leaves
+  satisfy the hypotheses of `C05_sound_realTyped` (`Ex.LeavesSound`), real-typed scalars and arrays
+  are real (`Ex.ScalarsTyped`) — outside the recorded clause `scalar-times-annotated`
+  (`Ex.NoScalarTimesAnnotated`, decidable); `C03_sound_leaves` / `C03_rejects_leaves` are the main
+  theorems restated with these hypotheses (`Lemmas/ExprHerm.lean`).
 
 For a division `x / c` the model (as the code) multiplies by the reciprocal `c.inv` supplied with
 the literal, and `meaning` uses the same `c.inv`; `c.v * c.inv = 1` is not needed.
@@ -62,6 +70,13 @@ theorem C03_rejects_partial (re : R → R) (e : Ex R)
     rw [h] at hm
     cases hm
 
+/-- the clause list the driver prints for an expression (`Ex.clauses`, used by the harness to
+match a code / specification difference with the recorded findings) is empty exactly when the two
+clause hypotheses of the main theorem hold -/
+theorem C03_clauses_decide (re : R → R) (e : Ex R) :
+    Ex.clauses re e = [] ↔ e.NoScalarOverOp ∧ e.NoLossyComplex re :=
+  Ex.clauses_nil_iff re e
+
 /-! ## rejection, rule by rule (no hypothesis on annotations needed beyond `Op.Good`) -/
 
 /-- `A @ B` with different inner dimensions is rejected (no hypothesis at all) -/
@@ -93,19 +108,29 @@ theorem C03_reject_kronsum (A B : Op R) (hA : Op.Good A) (hB : Op.Good B)
 
 /-! ## dtype -/
 
-/-- **C03 (dtype).**  The value's dtype is the dtype of the matrix expression
-(`Ex.dtypeSpec`: NumPy promotion of the operand dtypes for sums, differences, products,
-Kronecker products / sums, block-diagonal assembly and built-in `sum`; the operator's dtype for
-negation, scalar multiples and quotients, `lazify`, `to_dense`, `no_dispatch`), for operators
-mixed with plain arrays, provided
-* `Ex.ScalarOnOperator` — scalar multiples / quotients are applied to operators (for plain
-  arrays NumPy's own array-times-scalar promotion applies, `Ex.arrScalDtype`), and
-* `Ex.IdentityDtypeAbsorbed` — **clause** `identity-drop-dtype`: where `dot` drops an `Identity`
-  operand, that operand's dtype does not raise the other's (`C03_clause_needed_identity_dtype`).
-No well-formedness hypothesis is needed. -/
-theorem C03_dtype (re : R → R) (e : Ex R) (v : Val R) (hs : e.ScalarOnOperator re)
-    (hi : e.IdentityDtypeAbsorbed re) (h : eval re e = .ok v) : v.dtype = e.dtypeSpec :=
-  dt_all re e (all_and _ _ e hs hi) v h
+/-- **C03 (dtype).**  The value's dtype is the dtype of the matrix expression, `Ex.dtypeSpec`
+(Model/Expr.lean, written without reference to `eval`): an operator leaf contributes the join of
+the dtypes of its own leaves (`Op.dtypeSpec`, see `C01_dtype`); sums, differences, products,
+Kronecker products / sums, block-diagonal assembly and built-in `sum` take the NumPy promotion of
+the operand dtypes; negation, `lazify`, `to_dense`, `no_dispatch` keep the dtype; a scalar multiple
+or quotient keeps the operator's dtype and, for a plain array, follows NumPy's own
+array-times-scalar promotion (`Ex.arrScalDtype`).  For EVERY expression, operators mixed with plain
+arrays: no hypothesis at all.
+
+Strengthened (round 2): the former hypotheses `Ex.ScalarOnOperator` (scalar multiples only on
+operators) and `Ex.IdentityDtypeAbsorbed` (clause `identity-drop-dtype`) are gone — the first is
+now part of the specification (`Ex.yieldsArr`, `ExprSound.isArr_all`), the second was a defect of
+`cola.fns.dot` repaired in /repo 9457777 (an `Identity` is dropped only if the other operand
+already has the promoted dtype; `C03_identity_dtype_regression`). -/
+theorem C03_dtype (re : R → R) (e : Ex R) (v : Val R) (h : eval re e = .ok v) :
+    v.dtype = e.dtypeSpec :=
+  dt_all re e v h
+
+/-- whether the result is a plain array or an operator is determined by the form of the
+expression (`Ex.yieldsArr`) -/
+theorem C03_kind (re : R → R) (e : Ex R) (v : Val R) (h : eval re e = .ok v) :
+    v.isArr = e.yieldsArr :=
+  isArr_all re e v h
 
 /-! ## the clauses are needed; the hypotheses are satisfiable -/
 
@@ -199,16 +224,28 @@ theorem C03_clause_needed_herm :
     simp [Op.den, Op.cols, mmul, sumTo, eyeM, GInt.I] at this
     exact absurd this (by decide)
 
-/-- **the clause `identity-drop-dtype` is needed**: `I(float64) @ A(float32)` is `A` itself,
-dtype float32, while the matrix expression has dtype float64 -/
-theorem C03_clause_needed_identity_dtype :
-    let e : Ex GInt := .matmul (.op (.eye .f64 1)) (.op (.dense .f32 1 1 (fun _ _ => 1)))
-    e.ScalarOnOperator reG ∧
-      eval reG e = .ok (.op (.dense .f32 1 1 (fun _ _ => 1))) ∧ e.dtypeSpec = .f64 := by
-  refine ⟨?_, ?_, ?_⟩
-  · simp [ScalarOnOperator, All, locScalOnOp]
-  · simp [Ex.eval, matmulV, dotRule, isIdentity, Op.core, bind, Except.bind, Op.rows, Op.cols]
-  · simp [dtypeSpec, Op.dtype, DType.promote, DType.isComplex, DType.isDouble, DType.mk]
+/-- **regression for the repaired defect `identity-drop-dtype`** (/repo 9457777):
+`I(float64) @ A(float32)` is no longer `A` itself (float32) — the rule keeps
+`Product[I, A]`, dtype float64 = dtype of the matrix expression; and `I(complex64) @ I(float64)`
+is a fresh `Identity` of dtype complex128 -/
+theorem C03_identity_dtype_regression :
+    let A : Op GInt := .dense .f32 1 1 (fun _ _ => 1)
+    let e : Ex GInt := .matmul (.op (.eye .f64 1)) (.op A)
+    let e2 : Ex GInt := .matmul (.op (.eye .c64 2)) (.op (.eye .f64 2))
+    eval reG e = .ok (.op (.prod [.eye .f64 1, A])) ∧ e.dtypeSpec = .f64 ∧
+      (Val.op (.prod [.eye .f64 1, A]) : Val GInt).dtype = .f64 ∧
+      eval reG e2 = .ok (.op (.eye .c128 2)) ∧ e2.dtypeSpec = .c128 := by
+  refine ⟨?_, ?_, ?_, ?_, ?_⟩
+  · simp [Ex.eval, matmulV, dotRule, isIdentity, absorbs, mkProd, Op.chainOk, Op.core, bind,
+      Except.bind, Op.rows, Op.cols, Op.dtype, DType.promote, DType.isComplex, DType.isDouble,
+      DType.mk]
+  · simp [Ex.dtypeSpec, Op.dtypeSpec, Op.leafDtypes, DType.join, DType.promote, DType.isComplex,
+      DType.isDouble, DType.mk]
+  · simp [Val.dtype, Op.dtype, DType.promote, DType.isComplex, DType.isDouble, DType.mk]
+  · simp [Ex.eval, matmulV, dotRule, isIdentity, absorbs, Op.core, bind, Except.bind, Op.rows,
+      Op.cols, Op.dtype, DType.promote, DType.isComplex, DType.isDouble, DType.mk]
+  · simp [Ex.dtypeSpec, Op.dtypeSpec, Op.leafDtypes, DType.join, DType.promote, DType.isComplex,
+      DType.isDouble, DType.mk]
 
 /-! ## non-vacuity -/
 
@@ -238,12 +275,14 @@ theorem exampleExpr_hyps :
   · simp [exampleExpr, NoScalarOverOp, All, locNoSdiv]
   · simp [exampleExpr, NoLossyComplex, All, locNoLossy]
   · simp [exampleExpr, HermClosed, All, locHerm, Ex.eval, mulRule, matmulV, dotRule, isIdentity, Op.core,
+      absorbs, DType.promote, DType.isDouble, DType.mk,
       bind, Except.bind, Op.dtype, DType.isComplex, Op.rows, Op.cols, Val.HermTop, Op.HermNode,
       Op.isa, Op.anns, AnnSet.isa, Op.isTA, Op.isT, Op.areTheSame, Op.isScalarMul]
 
 /-- and the algebra does build a value -/
 theorem exampleExpr_eval : ∃ v, eval reG exampleExpr = .ok v := by
   simp [exampleExpr, Ex.eval, mulRule, matmulV, dotRule, isIdentity, Op.core, bind, Except.bind,
+    absorbs, DType.promote, DType.isDouble, DType.mk,
     Op.dtype, DType.isComplex, Op.rows, Op.cols, addV, addRule, sumMembers, mkSum, lazifyV]
 
 /-- … so the main theorems apply: the built operator has shape `2 × 2`, represents
@@ -254,22 +293,116 @@ example : ∃ v, eval reG exampleExpr = .ok v ∧
   obtain ⟨v, hv⟩ := exampleExpr_eval
   obtain ⟨h1, h2, h3, h4⟩ := exampleExpr_hyps
   obtain ⟨r, c, M, hm, hr, hg⟩ := C03_sound_partial reG exampleExpr v h1 h2 h3 h4 hv
-  have hd := C03_dtype reG exampleExpr v
-    (by simp [exampleExpr, ScalarOnOperator, All, locScalOnOp, Ex.eval])
-    (by simp [exampleExpr, IdentityDtypeAbsorbed, All, locIdAbsorb, Ex.eval, Op.dtype,
-      DType.promote, DType.isComplex, DType.isDouble, DType.mk]) hv
+  have hd := C03_dtype reG exampleExpr v hv
   refine ⟨v, hv, ?_, hg, ?_⟩
   · simp [exampleExpr, Ex.meaning, Op.rows, Op.cols, Op.den] at hm
     obtain ⟨rfl, rfl, rfl⟩ := hm
     exact hr
   · rw [hd]
-    simp [exampleExpr, dtypeSpec, Op.dtype, DType.promote, DType.isComplex, DType.isDouble,
-      DType.mk]
+    simp [exampleExpr, Ex.dtypeSpec, Ex.yieldsArr, Op.dtypeSpec, Op.leafDtypes, DType.join,
+      DType.promote, DType.isComplex, DType.isDouble, DType.mk]
 
 end C03
 
+namespace C03
+open Ex ExprSound ExprHerm
+
+/-! ## `HermClosed` from C05: the main theorem with leaf-level hypotheses (ℝ and ℂ) -/
+
+section leaves
+variable {𝕜 : Type} [RCLike 𝕜] [DecidableEq 𝕜]
+
+/-- **the semantic hypotheses of `C03_sound_partial` follow from C05.**  If
+* every operator leaf satisfies the hypotheses of `C05_sound_realTyped` (`wf`, true declarations
+  `LeavesTrue`, `RealTyped`) and has no repeated `Sliced` index, plain-array leaves and scalar
+  literals of a real type are real (`LeavesSound`, `ScalarsTyped`; `re` keeps real parts), and
+* the expression is outside the recorded clauses `scalar-divided-by-operator`,
+  `complex-scalar-real-operator` and `scalar-times-annotated` (C05's defect, on the operators the
+  evaluation produces — a decidable condition),
+then every `Product` that `mul` / `dot` build is Hermitian whenever it reports `SelfAdjoint`
+(`HermClosed`) and every leaf satisfies C01's hypotheses (`LeavesGood`). -/
+theorem C03_hermClosed_of_leaves (re : 𝕜 → 𝕜) (hre : ∀ x, star (re x) = re x) (e : Ex 𝕜)
+    (hl : e.LeavesSound) (hs : e.NoScalarOverOp) (hc : e.NoLossyComplex re)
+    (ht : e.ScalarsTyped) (hsta : e.NoScalarTimesAnnotated re) :
+    e.HermClosed re ∧ e.LeavesGood :=
+  ⟨(full_all re hre e (all_locL re e hl hs hc ht hsta)).2.2,
+    leavesGood_of_locL re e (all_locL re e hl hs hc ht hsta)⟩
+
+/-- **C03 (main theorem, leaf-level hypotheses).**  `C03_sound_partial` with its semantic
+hypothesis `HermClosed` discharged by C05: the conclusion holds for every expression over leaves
+with true declarations, outside the three recorded clauses; in addition the value again satisfies
+C05's payload hypotheses (`Val.Typed`: true declarations, real payloads under real dtypes), so the
+theorem composes.  It is `C03_sound_partial ∘ C03_hermClosed_of_leaves`. -/
+theorem C03_sound_leaves (re : 𝕜 → 𝕜) (hre : ∀ x, star (re x) = re x) (e : Ex 𝕜) (v : Val 𝕜)
+    (hl : e.LeavesSound) (hs : e.NoScalarOverOp) (hc : e.NoLossyComplex re)
+    (ht : e.ScalarsTyped) (hsta : e.NoScalarTimesAnnotated re) (h : eval re e = .ok v) :
+    (∃ r c M, meaning e = some (r, c, M) ∧ v.Rep r c M ∧ v.Good) ∧ v.Typed := by
+  obtain ⟨hh, hg⟩ := C03_hermClosed_of_leaves re hre e hl hs hc ht hsta
+  exact ⟨C03_sound_partial re e v hg hs hc hh h,
+    (full_all re hre e (all_locL re e hl hs hc ht hsta)).2.1 v h⟩
+
+/-- rejection under the leaf-level hypotheses -/
+theorem C03_rejects_leaves (re : 𝕜 → 𝕜) (hre : ∀ x, star (re x) = re x) (e : Ex 𝕜)
+    (hl : e.LeavesSound) (hs : e.NoScalarOverOp) (hc : e.NoLossyComplex re)
+    (ht : e.ScalarsTyped) (hsta : e.NoScalarTimesAnnotated re) (h : meaning e = none) :
+    ∃ msg, eval re e = .error msg := by
+  obtain ⟨hh, hg⟩ := C03_hermClosed_of_leaves re hre e hl hs hc ht hsta
+  exact C03_rejects_partial re e hg hs hc hh h
+
+end leaves
+
+/-- non-vacuity of the leaf-level bundle: `P @ D + 2 * D` over ℝ with `P` a declared-PSD `2 × 2`
+`Dense`, `D = diag(1, 2)` -/
+noncomputable def leavesExample : Ex ℝ :=
+  .add (.matmul (.op (.annot .psd (.dense .f64 2 2 eyeM))) (.op (.diag .f64 2 (fun i => (i : ℝ) + 1))))
+    (.smul ⟨2, 0, .pyint, false⟩ (.op (.diag .f64 2 (fun i => (i : ℝ) + 1))))
+
+theorem leavesExample_hyps :
+    leavesExample.LeavesSound ∧ leavesExample.NoScalarOverOp ∧ leavesExample.NoLossyComplex id ∧
+      leavesExample.ScalarsTyped ∧ leavesExample.NoScalarTimesAnnotated id := by
+  refine ⟨?_, ?_, ?_, ?_, ?_⟩
+  · have hP : locLeavesLR (Ex.op (.annot .psd (.dense .f64 2 2 eyeM)) : Ex ℝ) := by
+      refine ⟨by simp [Op.wf], by simp [Op.dupSlice], ?_, ?_⟩
+      · simp only [Op.LeavesTrue, Op.rows, Op.cols, Op.den, MatV.of_f, and_true]
+        exact holds_eyeM .psd 2
+      · simp only [Op.RealTyped]
+        intro _ i j _ _
+        simp only [eyeM]
+        split <;> simp
+    have hD : locLeavesLR (Ex.op (.diag .f64 2 (fun i => (i : ℝ) + 1)) : Ex ℝ) := by
+      refine ⟨by simp [Op.wf], by simp [Op.dupSlice], by simp [Op.LeavesTrue], ?_⟩
+      simp [Op.RealTyped]
+    simp only [leavesExample, LeavesSound, All]
+    exact ⟨trivial, ⟨trivial, hP, hD⟩, trivial, hD⟩
+  · simp [leavesExample, NoScalarOverOp, All, locNoSdiv]
+  · simp [leavesExample, NoLossyComplex, All, locNoLossy]
+  · simp [leavesExample, ScalarsTyped, All, locScalTyped, Scal.Typed]
+  · simp [leavesExample, NoScalarTimesAnnotated, All, locNoSTA, Ex.eval, mulRule, matmulV, dotRule,
+      isIdentity, absorbs, prodMembers, mkProd, Op.chainOk, Op.core, bind, Except.bind, Op.dtype,
+      DType.promote, DType.isComplex, DType.isDouble, DType.mk, Op.rows, Op.cols, addV, addRule,
+      sumMembers, mkSum, lazifyV, Op.scalarTimesAnnotated, Op.prodScalarDefect, Op.isScalarMul,
+      Op.anns]
+
+/-- … the algebra builds a value for it … -/
+theorem leavesExample_eval : ∃ v, eval id leavesExample = .ok v := by
+  simp [leavesExample, Ex.eval, mulRule, matmulV, dotRule, isIdentity, absorbs, prodMembers, mkProd,
+    Op.chainOk, Op.core, bind, Except.bind, Op.dtype, DType.promote, DType.isComplex,
+    DType.isDouble, DType.mk, Op.rows, Op.cols, addV, addRule, sumMembers, mkSum, lazifyV]
+
+/-- … so the leaf-level main theorem applies: the built operator represents `P · D + 2 · D`,
+satisfies C01's side conditions and C05's payload hypotheses -/
+example : ∃ v, eval id leavesExample = .ok v ∧
+    (∃ r c M, meaning leavesExample = some (r, c, M) ∧ v.Rep r c M ∧ v.Good) ∧ v.Typed := by
+  obtain ⟨v, hv⟩ := leavesExample_eval
+  obtain ⟨h1, h2, h3, h4, h5⟩ := leavesExample_hyps
+  exact ⟨v, hv, C03_sound_leaves id (fun x => by simp) leavesExample v h1 h2 h3 h4 h5 hv⟩
+
+end C03
+
+
 #print axioms C03.C03_sound_partial
 #print axioms C03.C03_rejects_partial
+#print axioms C03.C03_clauses_decide
 #print axioms C03.C03_reject_matmul
 #print axioms C03.C03_reject_add
 #print axioms C03.C03_reject_kronsum
@@ -279,6 +412,12 @@ end C03
 #print axioms C03.C03_clause_needed_complex_typeerror
 #print axioms C03.C03_bdiag_empty_rejected
 #print axioms C03.C03_clause_needed_herm
-#print axioms C03.C03_clause_needed_identity_dtype
+#print axioms C03.C03_kind
+#print axioms C03.C03_identity_dtype_regression
 #print axioms C03.exampleExpr_hyps
 #print axioms C03.exampleExpr_eval
+#print axioms C03.C03_hermClosed_of_leaves
+#print axioms C03.C03_sound_leaves
+#print axioms C03.C03_rejects_leaves
+#print axioms C03.leavesExample_hyps
+#print axioms C03.leavesExample_eval
